@@ -4,26 +4,7 @@ import json, os, sys
 HERE = os.path.dirname(os.path.dirname(os.path.abspath(__file__)))
 sys.path.insert(0, HERE)
 
-AIR = {'kind': 'air'}
-MIRROR = {'kind': 'mirror'}
-
-
-def glass(n, k=0.0):
-    return {'kind': 'ideal', 'n': n, 'k': k}
-
-
-def surf(R='inf', t=0.0, mat=AIR, k=0.0, stop=False, type='standard', coef=None, **kw):
-    s = dict(type=type, R=R, k=k, coef=coef, norm=None, t=t, mat=mat, dx=0.0, dy=0.0, rx=0.0, ry=0.0, ap=None,
-             coat=None, stop=stop)
-    s.update(kw)
-    return s
-
-
-def spec(surfs, t_obj='inf', n0=1.0, ap=('EPD', 10.0), ftype='angle', fields=(0.0, 5.0), wls=(0.55,), prim=0,
-         img=AIR, tele=False):
-    return dict(obj=dict(t=t_obj, n=n0), surfs=surfs, img=dict(mat=img), ap=dict(type=ap[0], value=ap[1]),
-                ftype=ftype, fields=[dict(y=y, vx=0.0, vy=0.0) for y in fields], wls=list(wls), prim=prim, tele=tele)
-
+from vf.gen.simple import AIR, MIRROR, glass, surf, spec  # noqa
 
 F = []
 
@@ -247,6 +228,12 @@ add(property='C07', id='C07-chebyshev-normal', status='open', clause='lengths_sc
                                                  surf(type='chebyshev', R=-60.0, t=40.0, coef=[[0.0, 0.02], [0.01, 0.0]],
                                                       norm=20.0)], ap=('EPD', 8.0), fields=(0.0, 3.0)),
                 'rays': [[0.0, 0.0, 0.0], [0.5, 0.3, 0.4], [1.0, -0.5, 0.5]], 'logs': 1.0, 'wl': 0})
+
+add(property='C06', id='C06-other-sheet-root', status='fixed', commit='212f09f', clause='rays_exist_inside_the_geometric_limit',
+    what='fixed: property=C06 212f09f for fast hyperboloid mirrors the conic root on the other sheet was chosen (smaller '
+         '|z|) and the ray lost although it meets the mirror',
+    reproducer={'R': 5.0, 'a': 0.5, 'b': 3.0, 'family': 'hyperboloid', 'fill': 0.75, 'n': 2.0, 'psf': False, 'sign': 1,
+                'wl': 0.5})
 
 for _e in F:
     if _e['id'] == 'C13-caller-arrays':
